@@ -85,6 +85,8 @@ def work(item):
     entries, data, fam = [], [], []
     for k, e in idx.items():
         entry = dict(key=k, ftypes=e['function_types'], versions=list(e['versions']), notes='')
+        if any('.' in v for v in e['versions']):
+            out.setdefault('assumption_broken', []).append('version with a dot: %s %s' % (k, sorted(e['versions'])))   # hypothesis of file_names_map_back
         notes = bse.get_basis_notes(k, d)
         entry['notes'] = hashlib.sha1(notes.encode('utf-8')).hexdigest() if notes else ''
         entries.append(entry)
@@ -175,6 +177,7 @@ def run(ctx):
         R.count('archive:%s:%s' % (out['fmt'], out['atype']))
         for h in out['hashes']:
             R.nt(h)
+        R.count('hypothesis versions-without-dot: ' + ('BROKEN' if out.get('assumption_broken') else 'holds'))
         for rule, what, n in out['bad']:
             R.violation(rule, 'bundle.create_bundle', what, dict(fmt=out['fmt'], reffmt=out['reffmt'], archive=out['atype'], member=n), fmt=out['fmt'])
         if out['req'] is not None:
